@@ -94,29 +94,32 @@ theorem legendre_pow_spec {a : Nat} (ha : a < P.p) :
   refine ⟨m1, ?_⟩
   rw [m2, s2, e2, half_eq hV, pow_succ, pow_add]
 
-/-- **`fp_is_square`, partial** (`a ≠ 0`): Euler's criterion. The full statement of the property
-    ("true exactly on squares, 0 included") is false of the code at 0: see `fp_is_square_zero`. -/
-theorem fp_is_square_spec_partial {a : Nat} (ha : a < P.p) (hne : toZ P a ≠ 0) :
+omit [Fact P.p.Prime] hV in
+theorem or_T32_mask {x : Nat} (hx : x = 0 ∨ x = T32) : (x ||| 0 = x) ∧ (x ||| T32 = T32) := by
+  rcases hx with rfl | rfl <;> decide
+
+/-- **`fp_is_square`** (after the repair `| fp_is_zero(a)`): true exactly on squares, 0 included -/
+theorem fp_is_square_spec {a : Nat} (ha : a < P.p) :
     (Ref.fp_is_square P a = T32 ↔ IsSquare (toZ P a)) ∧
-    (Ref.fp_is_square P a = 0 ↔ ¬ IsSquare (toZ P a)) := by
+    (Ref.fp_is_square P a = 0 ∨ Ref.fp_is_square P a = T32) := by
   obtain ⟨l1, l2⟩ := legendre_pow_spec hV ha
   obtain ⟨o1, o2⟩ := one_spec hV
   obtain ⟨q1, q2⟩ := fp_is_equal_spec hV l1 o1
+  have hE : Ref.fp_is_equal (Ref.fp_mul P (Ref.fp_sqr P (Ref.fp_exp3div4 P a)) a) (Ref.fp_set_one P) = 0 ∨
+      Ref.fp_is_equal (Ref.fp_mul P (Ref.fp_sqr P (Ref.fp_exp3div4 P a)) a) (Ref.fp_set_one P) = T32 := by
+    unfold Ref.fp_is_equal; split <;> simp
   unfold Ref.fp_is_square
   simp only []
-  rw [q1, q2, l2, o2, ZMod.euler_criterion P.p hne]
-  exact ⟨Iff.rfl, Iff.rfl⟩
-
-/-- **counterexample to the full statement**: the ref code answers "not a square" for 0 -/
-theorem fp_is_square_zero : Ref.fp_is_square P 0 = 0 := by
-  have h0 : 0 < P.p := by have := hV.hp2; omega
-  obtain ⟨l1, l2⟩ := legendre_pow_spec hV h0
-  obtain ⟨o1, o2⟩ := one_spec hV
-  obtain ⟨_, q2⟩ := fp_is_equal_spec hV l1 o1
-  unfold Ref.fp_is_square
-  simp only []
-  rw [q2, l2, o2, toZ_zero, zero_pow (by have := hV.hp2; omega)]
-  exact zero_ne_one
+  by_cases h0 : a = 0
+  · subst h0
+    have hz : Ref.fp_is_zero 0 = T32 := by simp [Ref.fp_is_zero]
+    rw [hz, (or_T32_mask hE).2, toZ_zero]
+    exact ⟨⟨fun _ => ⟨0, by simp⟩, fun _ => rfl⟩, Or.inr rfl⟩
+  · have hz : Ref.fp_is_zero a = 0 := by simp [Ref.fp_is_zero, h0]
+    have hne : toZ P a ≠ 0 := fun h => h0 (toZ_eq_zero hV ha h)
+    rw [hz, (or_T32_mask hE).1]
+    refine ⟨?_, hE⟩
+    rw [q1, l2, o2, ZMod.euler_criterion P.p hne]
 
 theorem toZ_val_parity_neg {x : ZMod P.p} (hx : x ≠ 0) : (-x).val % 2 = 1 - x.val % 2 := by
   have h4 := hV.hp4
